@@ -354,10 +354,10 @@ impl SwiftField for Field59 {
                 let field = Field59F::parse(value)?;
                 Ok(Field59::F(field))
             }
-            _ => {
-                // Unknown variant, fall back to default parse behavior
-                Self::parse(value)
-            }
+            Some("") => Self::parse_with_variant(value, None, _field_tag),
+            Some(other) => Err(ParseError::InvalidFormat {
+                message: format!("Field 59 has no option '{}'", other),
+            }),
         }
     }
 
@@ -416,10 +416,10 @@ impl SwiftField for Field59Debtor {
                 let field = Field59A::parse(value)?;
                 Ok(Field59Debtor::A(field))
             }
-            _ => {
-                // Unknown variant, fall back to default parse behavior
-                Self::parse(value)
-            }
+            Some("") => Self::parse_with_variant(value, None, _field_tag),
+            Some(other) => Err(ParseError::InvalidFormat {
+                message: format!("Field 59 has no option '{}'", other),
+            }),
         }
     }
 
